@@ -27,7 +27,7 @@ RULE = (
     "on 3-4-5 directions, mindist in {0, 1e-3..1e4}; (b) seeded random clouds at scales 1e-6..1e8 with coincident data/force points; "
     "(c) dyadic clouds shifted by dyadic offsets (bit-identical Jacobians required); (d) VectorSpline2D with Poisson in [-1,1] incl. "
     "+-1 and mindist in {0, 1e-3..1e4}; (e) Trend degrees 0..6; (f) CheckerBoard with default and explicit wavelengths; (g) Linear / "
-    "Cubic with both rescale settings on isotropic and strongly anisotropic clouds; (h) integer-typed (int32 / int64) query and force coordinates, including values whose squares / powers overflow the integer dtype; (i) life-cycle histories: evaluate, change parameters on the same object (set_params or attribute assignment: CheckerBoard region / amplitude / wavelengths, Spline mindist / forces, VectorSpline2D poisson / mindist, Trend degree, Linear / Cubic rescale between fits, instances of sibling classes with different rescale fitted one after the other), evaluate again; (j) equivalent spellings of option values (rescale as numpy.bool_ / comparison result / 1, 0 / 0-d array; mindist, damping, poisson, degree, amplitude, wavelengths as int / numpy integer / numpy float; region as list / tuple / ndarray of ints or numpy scalars), given positionally, by keyword or through set_params; (k) extra (ignored) coordinate arrays after easting and northing holding NaN gaps, all NaN, +-inf, integer / bool / float32 dtypes in predict, fit, score, grid, scatter and profile (must equal the two-coordinate call bit for bit and the analytic formula); (l) single calls with more than 100 000 query points (predict, 300x400-class grids, scatter, profile) for Trend with asymmetric coefficients, Spline / VectorSpline2D with few forces, CheckerBoard, Linear, Cubic, also compared with the same points in small calls; (m) pickle round trips, copy.deepcopy and copy.copy of fitted gridders (Linear / Cubic with rescale=True on anisotropic offset coordinates, Spline, VectorSpline2D, Trend, Chain, Vector with KNeighbors); (n) fitted Spline / VectorSpline2D / Trend / Chain / "
+    "Cubic with both rescale settings on isotropic and strongly anisotropic clouds; (h) integer-typed (int32 / int64) query and force coordinates, including values whose squares / powers overflow the integer dtype; (i) life-cycle histories: evaluate, change parameters on the same object (set_params or attribute assignment: CheckerBoard region / amplitude / wavelengths, Spline mindist / forces, VectorSpline2D poisson / mindist, Trend degree, Linear / Cubic rescale between fits, instances of sibling classes with different rescale fitted one after the other), evaluate again; (j) equivalent spellings of option values (rescale as numpy.bool_ / comparison result / 1, 0 / 0-d array; mindist, damping, poisson, degree, amplitude, wavelengths as int / numpy integer / numpy float; region as list / tuple / ndarray of ints or numpy scalars), given positionally, by keyword or through set_params; (k) extra (ignored) coordinate arrays after easting and northing holding NaN gaps, all NaN, +-inf, integer / bool / float32 dtypes in predict, fit, score, grid, scatter and profile (must equal the two-coordinate call bit for bit and the analytic formula); (l) single calls with more than 100 000 query points (predict, 300x400-class grids, scatter, profile) for Trend with asymmetric coefficients, Spline / VectorSpline2D with few forces, CheckerBoard, Linear, Cubic, also compared with the same points in small calls; (m) pickle round trips, copy.deepcopy and copy.copy of fitted gridders (Linear / Cubic with rescale=True on anisotropic offset coordinates, Spline, VectorSpline2D, Trend, Chain, Vector with KNeighbors); (n) 2-D query arrays that are not regular grids (regular border with displaced interior nodes or one moved line, scattered 2-D, 'ij' meshgrids, rotated and sheared grids, (1,n) and (n,1) point lists) against the formula at the real node positions and the raveled call; (o) fitted Spline / VectorSpline2D / Trend / Chain / "
     "Vector / SplineCV through predict, grid, scatter and profile. Parameters are set by hand (unit vectors, random vectors) on unfitted "
     "estimators as well as estimated by fit; queries are 0-d, 1-D, 2-D and 3-D. A monitored evaluation is non-trivial when its kernel "
     "arguments contain a coincident pair or at least one distance in each of (0,1), [1,e) and >= e (spline family), degree >= 2 (Trend), "
@@ -98,6 +98,26 @@ FLOORS = {  # ~40 % of what the unchanged tree produces at quick seed 0 (observe
         "large:Spline:scatter": 1, "large:Trend:grid": 1, "large:Trend:predict": 1, "large:Trend:profile": 1, "large:Trend:scatter": 1,
         "large:VectorSpline2D:grid": 1, "large:VectorSpline2D:predict": 1, "large:VectorSpline2D:profile": 1, "large:VectorSpline2D:scatter": 1,
         "large:points": 1618018, "eval:copies_predict_like_the_original": 163, "eval:large_call_equals_small_calls": 2,
+        "gridlike:CheckerBoard:broadcastable_shapes": 19, "gridlike:CheckerBoard:meshgrid_ij": 6, "gridlike:CheckerBoard:point_list(1,n)": 6,
+        "gridlike:CheckerBoard:point_list(n,1)": 6, "gridlike:CheckerBoard:regular_border_displaced_interior": 6,
+        "gridlike:CheckerBoard:regular_border_one_line_moved": 6, "gridlike:CheckerBoard:regular_grid": 6, "gridlike:CheckerBoard:rotated_grid": 6,
+        "gridlike:CheckerBoard:scattered_2d": 6, "gridlike:CheckerBoard:sheared_grid": 6, "gridlike:Cubic:meshgrid_ij": 6,
+        "gridlike:Cubic:point_list(1,n)": 6, "gridlike:Cubic:point_list(n,1)": 6, "gridlike:Cubic:regular_border_displaced_interior": 6,
+        "gridlike:Cubic:regular_border_one_line_moved": 6, "gridlike:Cubic:regular_grid": 6, "gridlike:Cubic:rotated_grid": 6,
+        "gridlike:Cubic:scattered_2d": 6, "gridlike:Cubic:sheared_grid": 6, "gridlike:Linear:meshgrid_ij": 6, "gridlike:Linear:point_list(1,n)": 6,
+        "gridlike:Linear:point_list(n,1)": 6, "gridlike:Linear:regular_border_displaced_interior": 6,
+        "gridlike:Linear:regular_border_one_line_moved": 6, "gridlike:Linear:regular_grid": 6, "gridlike:Linear:rotated_grid": 6,
+        "gridlike:Linear:scattered_2d": 6, "gridlike:Linear:sheared_grid": 6, "gridlike:Spline:meshgrid_ij": 6, "gridlike:Spline:point_list(1,n)": 6,
+        "gridlike:Spline:point_list(n,1)": 6, "gridlike:Spline:regular_border_displaced_interior": 6,
+        "gridlike:Spline:regular_border_one_line_moved": 6, "gridlike:Spline:regular_grid": 6, "gridlike:Spline:rotated_grid": 6,
+        "gridlike:Spline:scattered_2d": 6, "gridlike:Spline:sheared_grid": 6, "gridlike:Trend:meshgrid_ij": 6, "gridlike:Trend:point_list(1,n)": 6,
+        "gridlike:Trend:point_list(n,1)": 6, "gridlike:Trend:regular_border_displaced_interior": 6,
+        "gridlike:Trend:regular_border_one_line_moved": 6, "gridlike:Trend:regular_grid": 6, "gridlike:Trend:rotated_grid": 6,
+        "gridlike:Trend:scattered_2d": 6, "gridlike:Trend:sheared_grid": 6, "gridlike:VectorSpline2D:meshgrid_ij": 6,
+        "gridlike:VectorSpline2D:point_list(1,n)": 6, "gridlike:VectorSpline2D:point_list(n,1)": 6,
+        "gridlike:VectorSpline2D:regular_border_displaced_interior": 6, "gridlike:VectorSpline2D:regular_border_one_line_moved": 6,
+        "gridlike:VectorSpline2D:regular_grid": 6, "gridlike:VectorSpline2D:rotated_grid": 6, "gridlike:VectorSpline2D:scattered_2d": 6,
+        "gridlike:VectorSpline2D:sheared_grid": 6, "eval:two_dimensional_query_equals_raveled": 345,
     },
     "thorough": {
         "eval:spline_jacobian": 15500, "eval:spline_predict": 38000, "eval:vector_jacobian": 11400, "eval:vector_predict": 36500,
@@ -155,7 +175,27 @@ FLOORS = {  # ~40 % of what the unchanged tree produces at quick seed 0 (observe
         "large:Spline:grid": 2, "large:Spline:predict": 2, "large:Spline:profile": 2, "large:Spline:scatter": 2, "large:Trend:grid": 2,
         "large:Trend:predict": 2, "large:Trend:profile": 2, "large:Trend:scatter": 2, "large:VectorSpline2D:grid": 2,
         "large:VectorSpline2D:predict": 2, "large:VectorSpline2D:profile": 2, "large:VectorSpline2D:scatter": 2, "large:points": 6472072,
-        "eval:copies_predict_like_the_original": 3260, "eval:large_call_equals_small_calls": 8,
+        "eval:copies_predict_like_the_original": 3260, "eval:large_call_equals_small_calls": 8, "gridlike:CheckerBoard:broadcastable_shapes": 380,
+        "gridlike:CheckerBoard:meshgrid_ij": 120, "gridlike:CheckerBoard:point_list(1,n)": 120, "gridlike:CheckerBoard:point_list(n,1)": 120,
+        "gridlike:CheckerBoard:regular_border_displaced_interior": 120, "gridlike:CheckerBoard:regular_border_one_line_moved": 120,
+        "gridlike:CheckerBoard:regular_grid": 120, "gridlike:CheckerBoard:rotated_grid": 120, "gridlike:CheckerBoard:scattered_2d": 120,
+        "gridlike:CheckerBoard:sheared_grid": 120, "gridlike:Cubic:meshgrid_ij": 120, "gridlike:Cubic:point_list(1,n)": 120,
+        "gridlike:Cubic:point_list(n,1)": 120, "gridlike:Cubic:regular_border_displaced_interior": 120,
+        "gridlike:Cubic:regular_border_one_line_moved": 120, "gridlike:Cubic:regular_grid": 120, "gridlike:Cubic:rotated_grid": 120,
+        "gridlike:Cubic:scattered_2d": 120, "gridlike:Cubic:sheared_grid": 120, "gridlike:Linear:meshgrid_ij": 120,
+        "gridlike:Linear:point_list(1,n)": 120, "gridlike:Linear:point_list(n,1)": 120, "gridlike:Linear:regular_border_displaced_interior": 120,
+        "gridlike:Linear:regular_border_one_line_moved": 120, "gridlike:Linear:regular_grid": 120, "gridlike:Linear:rotated_grid": 120,
+        "gridlike:Linear:scattered_2d": 120, "gridlike:Linear:sheared_grid": 120, "gridlike:Spline:meshgrid_ij": 120,
+        "gridlike:Spline:point_list(1,n)": 120, "gridlike:Spline:point_list(n,1)": 120, "gridlike:Spline:regular_border_displaced_interior": 120,
+        "gridlike:Spline:regular_border_one_line_moved": 120, "gridlike:Spline:regular_grid": 120, "gridlike:Spline:rotated_grid": 120,
+        "gridlike:Spline:scattered_2d": 120, "gridlike:Spline:sheared_grid": 120, "gridlike:Trend:meshgrid_ij": 120,
+        "gridlike:Trend:point_list(1,n)": 120, "gridlike:Trend:point_list(n,1)": 120, "gridlike:Trend:regular_border_displaced_interior": 120,
+        "gridlike:Trend:regular_border_one_line_moved": 120, "gridlike:Trend:regular_grid": 120, "gridlike:Trend:rotated_grid": 120,
+        "gridlike:Trend:scattered_2d": 120, "gridlike:Trend:sheared_grid": 120, "gridlike:VectorSpline2D:meshgrid_ij": 120,
+        "gridlike:VectorSpline2D:point_list(1,n)": 120, "gridlike:VectorSpline2D:point_list(n,1)": 120,
+        "gridlike:VectorSpline2D:regular_border_displaced_interior": 120, "gridlike:VectorSpline2D:regular_border_one_line_moved": 120,
+        "gridlike:VectorSpline2D:regular_grid": 120, "gridlike:VectorSpline2D:rotated_grid": 120, "gridlike:VectorSpline2D:scattered_2d": 120,
+        "gridlike:VectorSpline2D:sheared_grid": 120, "eval:two_dimensional_query_equals_raveled": 6900,
     },
 }
 JOBS = {"quick": 1, "thorough": 16}
@@ -165,8 +205,8 @@ MPMATH_BUDGET = {"quick": 260, "thorough": 60}  # per process (thorough runs 16 
 
 def plan(tier):
     if tier == "quick":
-        return collections.OrderedDict(ladder=360, pairs=480, translation=240, vector=420, trend=480, checker=420, scipy=420, fitted=300, integer=210, history=240, spelling=300, extras=210, large=24, copies=96)
-    return collections.OrderedDict(ladder=7200, pairs=9600, translation=4800, vector=8400, trend=9600, checker=8400, scipy=8400, fitted=6000, integer=4200, history=4800, spelling=6000, extras=4200, large=96, copies=1920)
+        return collections.OrderedDict(ladder=360, pairs=480, translation=240, vector=420, trend=480, checker=420, scipy=420, fitted=300, integer=210, history=240, spelling=300, extras=210, large=24, copies=96, gridlike=96)
+    return collections.OrderedDict(ladder=7200, pairs=9600, translation=4800, vector=8400, trend=9600, checker=8400, scipy=8400, fitted=6000, integer=4200, history=4800, spelling=6000, extras=4200, large=96, copies=1920, gridlike=1920)
 
 
 # ----------------------------------------------------------------------
@@ -1693,7 +1733,92 @@ def _stream_copies(run, rng, verde, index):
                                                                 "monitors, against the formula / SciPy on the points of the observed fit"})
 
 
-_STREAMS = {"large": _stream_large, "copies": _stream_copies, "extras": _stream_extras, "spelling": _stream_spelling, "history": _stream_history, "integer": _stream_integer, "ladder": _stream_ladder, "pairs": _stream_pairs, "translation": _stream_translation, "vector": _stream_vector,
+def _gridlike_queries(rng, region):
+    """2-D (and degenerate 2-D) query arrays that are NOT regular grids although some of them look like one on their border."""
+    w, e, s_, n_ = region
+    rows, cols = int(rng.integers(4, 9)), int(rng.integers(4, 9))
+    ge, gn = np.meshgrid(np.linspace(w, e, cols), np.linspace(s_, n_, rows))
+    de, dn = (e - w) / (cols - 1), (n_ - s_) / (rows - 1)
+    out = []
+    be, bn = ge.copy(), gn.copy()
+    be[1:-1, 1:-1] += rng.uniform(-0.4, 0.4, (rows - 2, cols - 2)) * de
+    bn[1:-1, 1:-1] += rng.uniform(-0.4, 0.4, (rows - 2, cols - 2)) * dn
+    out.append(("regular_border_displaced_interior", be, bn))
+    be2, bn2 = ge.copy(), gn.copy()  # only one interior column / row moved: first row == last row, first column == last column still hold
+    be2[1:-1, int(rng.integers(1, cols - 1))] += 0.3 * de
+    bn2[int(rng.integers(1, rows - 1)), 1:-1] -= 0.3 * dn
+    out.append(("regular_border_one_line_moved", be2, bn2))
+    out.append(("scattered_2d", rng.uniform(w, e, (rows, cols)), rng.uniform(s_, n_, (rows, cols))))
+    ie, in_ = np.meshgrid(np.linspace(w, e, cols), np.linspace(s_, n_, rows), indexing="ij")
+    out.append(("meshgrid_ij", ie, in_))
+    ang = rng.uniform(0.1, 1.4)
+    ce, cn = 0.5 * (w + e), 0.5 * (s_ + n_)
+    re = ce + 0.6 * ((ge - ce) * np.cos(ang) - (gn - cn) * np.sin(ang))
+    rn = cn + 0.6 * ((ge - ce) * np.sin(ang) + (gn - cn) * np.cos(ang))
+    out.append(("rotated_grid", re, rn))
+    shear = rng.uniform(0.2, 0.8)
+    out.append(("sheared_grid", ce + 0.5 * (ge - ce) + shear * 0.4 * (gn - cn) * (e - w) / (n_ - s_), gn.copy()))
+    k = int(rng.integers(3, 12))
+    pe, pn = rng.uniform(w, e, k), rng.uniform(s_, n_, k)
+    out.append(("point_list(1,n)", pe.reshape(1, -1), pn.reshape(1, -1)))
+    out.append(("point_list(n,1)", pe.reshape(-1, 1), pn.reshape(-1, 1)))
+    out.append(("regular_grid", ge, gn))
+    return out
+
+
+def _stream_gridlike(run, rng, verde, index):
+    """2-D query arrays: the formula holds at the REAL node positions and equals the prediction for the same points passed raveled."""
+    kind = index % 6
+    name = ("Trend", "CheckerBoard", "Spline", "VectorSpline2D", "Linear", "Cubic")[kind]
+    scale = gen.log_uniform(rng, 1e-1, 1e4)
+    w, s_ = float(rng.normal() * scale), float(rng.normal() * scale)
+    region = (w, w + float(rng.uniform(0.5, 2) * scale), s_, s_ + float(rng.uniform(0.5, 2) * scale))
+    n = int(rng.integers(10, 40))
+    east, north = rng.uniform(region[0], region[1], n), rng.uniform(region[2], region[3], n)
+    if kind == 0:
+        degree = int(rng.integers(2, 6))
+        est = verde.Trend(degree)
+        est.coef_ = rng.normal(size=(degree + 1) * (degree + 2) // 2)
+    elif kind == 1:
+        est = verde.synthetic.CheckerBoard(amplitude=float(rng.normal() * 10), region=region, **({} if index % 12 < 6 else {"w_east": float(0.3 * scale), "w_north": float(0.7 * scale)}))
+    elif kind == 2:
+        m = int(rng.integers(1, 9))
+        est = _hand_spline(verde, float(rng.choice([0.0, 0.0, 1e-2 * scale])), east[:m].copy(), north[:m].copy(), rng.normal(size=m))
+    elif kind == 3:
+        m = int(rng.integers(1, 6))
+        est = verde.VectorSpline2D(poisson=float(rng.uniform(-1, 1)), mindist=float(0.05 * scale), force_coords=(east[:m].copy(), north[:m].copy()))
+        est.force_ = rng.normal(size=2 * m)
+    else:
+        corners = np.array([[region[0], region[2]], [region[1], region[2]], [region[0], region[3]], [region[1], region[3]]])
+        ce, cn = np.concatenate([east, corners[:, 0]]), np.concatenate([north, corners[:, 1]])
+        est = (verde.Linear if kind == 4 else verde.Cubic)(rescale=bool(rng.random() < 0.5)).fit((ce, cn), gen.smooth_field(rng, ce, cn))
+    for qname, qe, qn in _gridlike_queries(rng, region):
+        got = _values(est.predict((qe, qn)))
+        flat = _values(est.predict((qe.ravel(), qn.ravel())))
+        run.evaluated("two_dimensional_query_equals_raveled")
+        run.count("gridlike:%s:%s" % (name, qname))
+        ok = all(np.shape(g) == qe.shape and np.array_equal(np.ravel(g), f, equal_nan=True) for g, f in zip(got, flat))
+        if not ok:
+            scale_v = max([float(np.nanmax(np.abs(f))) for f in flat if np.any(np.isfinite(f))] + [0.0])
+            ok = all(np.shape(g) == qe.shape and np.array_equal(np.isnan(np.ravel(g)), np.isnan(f))
+                     and (not np.any(np.isfinite(f)) or float(np.nanmax(np.abs(np.ravel(g) - f))) <= 64 * EPS * scale_v) for g, f in zip(got, flat))
+            run.count("gridlike:differs_within_round_off" if ok else "gridlike:differs")
+        if not ok:
+            run.violation("two_dimensional_query_equals_raveled", "%s.predict on a %s query of shape %s differs from the prediction for the same points passed raveled"
+                          % (name, qname, qe.shape), {"gridder": repr(est)[:200], "query_class": qname, "easting": qe, "northing": qn,
+                                                      "two_dimensional": [np.asarray(g) for g in got], "raveled": [np.asarray(f) for f in flat]}, key="gridlike:%s" % name)
+        else:
+            run.mark_nontrivial("gridlike", name, qname, qe, qn)
+    if kind == 1:  # CheckerBoard also accepts different but broadcastable shapes
+        a, b = rng.uniform(region[0], region[1], 5), rng.uniform(region[2], region[3], 4)
+        for qe, qn in ((a.reshape(1, -1), b.reshape(-1, 1)), (a, b.reshape(-1, 1)), (np.float64(a[0]), b)):
+            est.predict((qe, qn))
+            run.count("gridlike:CheckerBoard:broadcastable_shapes")
+    run.sample("gridlike", {"gridder": name, "region": list(region), "compared": "2-D queries (regular border with displaced interior, scattered, ij meshgrid, rotated, sheared, (1,n), (n,1)) "
+                                                                            "against the formula at the real node positions (predict monitors) and against the raveled call"})
+
+
+_STREAMS = {"gridlike": _stream_gridlike, "large": _stream_large, "copies": _stream_copies, "extras": _stream_extras, "spelling": _stream_spelling, "history": _stream_history, "integer": _stream_integer, "ladder": _stream_ladder, "pairs": _stream_pairs, "translation": _stream_translation, "vector": _stream_vector,
             "trend": _stream_trend, "checker": _stream_checker, "scipy": _stream_scipy, "fitted": _stream_fitted}
 
 
